@@ -76,7 +76,10 @@ def verify(quals, sidecar_names=None, repo=None, timeout_ms=10000, keep_smt=Fals
             fr.source_hash = E.fe.source_hash(fn, m)
             fr.used_contracts = sorted(fv.used_contracts)
             fr.abstracted = list(fv.abstracted)
+            only = os.environ.get('PYVC_ONLY')
             for k, ob in enumerate(fv.obligations):
+                if only and not __import__('re').search(only, ob.name):
+                    continue
                 key = (q, k)
                 text = solver.to_smt2(hyps_for(E, fv, ob), ob.goal)
                 items.append((key, text, ob.kind))
